@@ -277,7 +277,7 @@ func ruleBTReg(c *Ctx) {
 		for _, in := range b.Instrs {
 			if l, ok := in.(*ssa.Lookup); ok && l.CommaOk {
 				if r, _ := rootOfAddr(l.X); r != nil {
-					if g, ok := r.(*ssa.Global); ok && globalKey(g) == "avro.registry" {
+					if g, ok := r.(*ssa.Global); ok && globalKey(g) == registryKey {
 						lk = l
 					}
 				}
@@ -287,7 +287,7 @@ func ruleBTReg(c *Ctx) {
 	isRegistryLookup := func(in ssa.Instruction) *ssa.Lookup {
 		if l, ok := in.(*ssa.Lookup); ok && l.CommaOk {
 			if r, _ := rootOfAddr(l.X); r != nil {
-				if g, ok := r.(*ssa.Global); ok && globalKey(g) == "avro.registry" {
+				if g, ok := r.(*ssa.Global); ok && globalKey(g) == registryKey {
 					return l
 				}
 			}
@@ -513,7 +513,7 @@ func ruleSGReg(c *Ctx) {
 			for _, in := range b.Instrs {
 				if l, ok := in.(*ssa.Lookup); ok {
 					if r, _ := rootOfAddr(l.X); r != nil {
-						if g, ok := r.(*ssa.Global); ok && globalKey(g) == "avro.schemaRegistry" {
+						if g, ok := r.(*ssa.Global); ok && globalKey(g) == schemaRegistryKey {
 							reads = true
 						}
 					}
